@@ -59,3 +59,113 @@ def executeOp (reg : Reg) (fuel : Nat) (defs : List VarDef) (variables : List (S
   | .error _ => [.crash]
 
 end PyGql.Coerce
+
+/-! ### the whole response tree: nested selections, lists of objects, abstract types
+
+  `execute_fields` → `resolve_field` → `complete_value` → (`complete_list_value`) → `execute_fields` on the RUNTIME type.
+  Field collection (fragments, @skip/@include, merging) is C04's subject: a selection here is an already collected
+  response key with its field node's arguments and its merged sub-selections. For an abstract return type the SAME
+  node is resolved against the definition that the runtime object type gives to the field (`ResolutionContext.
+  argument_values` caches per (field definition, node)): `ArgTable` is indexed by (object type, field name).
+-/
+
+namespace PyGql.Coerce
+
+inductive Seg where
+  | key (k : String)
+  | idx (i : Nat)
+  deriving Repr, DecidableEq, Inhabited
+
+abbrev RPath := List Seg
+
+inductive SelT where
+  | mk (key field : String) (args : List (String × Lit)) (sub : List SelT)
+  deriving Repr, Inhabited
+
+def SelT.key : SelT → String | .mk k _ _ _ => k
+def SelT.field : SelT → String | .mk _ f _ _ => f
+def SelT.args : SelT → List (String × Lit) | .mk _ _ a _ => a
+def SelT.sub : SelT → List SelT | .mk _ _ _ s => s
+
+/-- what a resolver returned, as far as the executor's recursion depends on it -/
+inductive RVal where
+  | null
+  | leaf
+  | obj (ty : String)                       -- an object whose runtime type (`resolve_type` / the declared object type) is `ty`
+  | objs (items : List (Option String))     -- a list of objects (runtime types) and nulls
+  | raised                                  -- the resolver raised `ResolverError`
+  deriving Repr, Inhabited
+
+inductive TEv where
+  | call (path : RPath) (ty field : String) (kwargs : List (String × PV))
+  | fieldError (path : RPath)               -- CoercionError / ResolverError caught by `resolve_field`: add_error, value None
+  | requestError
+  | crash
+  deriving Repr, Inhabited
+
+def TEv.isCrash : TEv → Bool
+  | .crash => true
+  | _ => false
+
+/-- object type ↦ field name ↦ argument definitions (`none`: the type has no such field: `continue`) -/
+abbrev ArgTable := String → String → Option (List InField)
+
+/-- resolvers: (parent object type, field, response path, keyword arguments) ↦ what they return -/
+abbrev TWorld := String → String → RPath → List (String × PV) → RVal
+
+/-- sequential composition: an exception that escaped ends the execution -/
+def andThen (a b : List TEv) : List TEv := if a.any TEv.isCrash then a else a ++ b
+
+/-- `complete_list_value`: items in order, path extended by the index -/
+def completeItems (execSub : String → RPath → List SelT → List TEv) (sub : List SelT) (p : RPath) :
+    Nat → List (Option String) → List TEv
+  | _, [] => []
+  | i, none :: rest => completeItems execSub sub p (i + 1) rest
+  | i, some ty :: rest => andThen (execSub ty (p ++ [.idx i]) sub) (completeItems execSub sub p (i + 1) rest)
+
+/-- `complete_value` -/
+def completeT (execSub : String → RPath → List SelT → List TEv) (sub : List SelT) (p : RPath) : RVal → List TEv
+  | .obj ty => execSub ty p sub
+  | .objs items => completeItems execSub sub p 0 items
+  | _ => []
+
+/-- `resolve_field` + completion of what the resolver returned -/
+def execFieldT (reg : Reg) (fuelC : Nat) (env : List (String × PV)) (tbl : ArgTable) (w : TWorld)
+    (execSub : String → RPath → List SelT → List TEv) (ty : String) (path : RPath) (sel : SelT) : List TEv :=
+  match tbl ty sel.field with
+  | none => []
+  | some defs =>
+    match coerceArgumentValues reg fuelC env sel.args defs with
+    | .error .coercion => [.fieldError (path ++ [.key sel.key])]
+    | .error _ => [.crash]
+    | .ok kw =>
+      match w ty sel.field (path ++ [.key sel.key]) (dictOfAssignments kw) with
+      | .raised => [.call (path ++ [.key sel.key]) ty sel.field (dictOfAssignments kw), .fieldError (path ++ [.key sel.key])]
+      | v => .call (path ++ [.key sel.key]) ty sel.field (dictOfAssignments kw) :: completeT execSub sel.sub (path ++ [.key sel.key]) v
+
+/-- `execute_fields`: the response keys in order -/
+def execSelsT (reg : Reg) (fuelC : Nat) (env : List (String × PV)) (tbl : ArgTable) (w : TWorld)
+    (execSub : String → RPath → List SelT → List TEv) (ty : String) (path : RPath) : List SelT → List TEv
+  | [] => []
+  | sel :: rest => andThen (execFieldT reg fuelC env tbl w execSub ty path sel) (execSelsT reg fuelC env tbl w execSub ty path rest)
+
+/-- the executor on a selection forest (fuel = nesting budget; exhausted = RecursionError escapes) -/
+def execTree (reg : Reg) (fuelC : Nat) (env : List (String × PV)) (tbl : ArgTable) (w : TWorld) :
+    Nat → String → RPath → List SelT → List TEv
+  | 0, _, _, _ => [.crash]
+  | n + 1, ty, path, sels => execSelsT reg fuelC env tbl w (execTree reg fuelC env tbl w n) ty path sels
+
+/-- `execute`: variables first, then the root selection set -/
+def executeTree (reg : Reg) (fuelC fuel : Nat) (defs : List VarDef) (variables : List (String × JV)) (tbl : ArgTable) (w : TWorld)
+    (root : String) (sels : List SelT) : List TEv :=
+  match coerceVariableValues reg fuelC variables defs with
+  | .ok env => execTree reg fuelC env tbl w fuel root [] sels
+  | .error .coercion => [.requestError]
+  | .error _ => [.crash]
+
+/-- `sel` occurs somewhere in the forest -/
+inductive InTree : SelT → List SelT → Prop
+  | here {sel : SelT} {l : List SelT} : sel ∈ l → InTree sel l
+  | deeper {sel s : SelT} {l : List SelT} : s ∈ l → InTree sel s.sub → InTree sel l
+
+end PyGql.Coerce
